@@ -5,10 +5,8 @@ package main
 import (
 	"encoding/json"
 	"fmt"
-	"runtime"
 	"strings"
 	"sync"
-	"sync/atomic"
 
 	am "github.com/pancsta/asyncmachine-go/pkg/machine"
 
@@ -251,158 +249,6 @@ func (eng) Run(c core.CaseDesc, tier string) *core.CaseResult {
 	return res
 }
 
-type snap struct {
-	view string
-	t    am.Time
-	// inflight: a transition was running when the snapshot was taken
-	inflight bool
-}
-
-func runReaders(res *core.CaseResult, c core.CaseDesc) {
-	r := gen.NewRand(c.Seed, 2)
-	spec := gen.RandSchema(r, gen.SchemaOpts{MinStates: 2, MaxStates: 5,
-		PRequire: r.Float64() * 0.2, PAdd: r.Float64() * 0.3, PRemove: r.Float64() * 0.3,
-		PAuto: r.Float64() * 0.3, PMulti: r.Float64() * 0.4})
-	mc, _ := seq.New(spec, seq.MachOpts{})
-	m := mc.M
-	mc.Tr.NoSample = true
-	nReaders := 1 + r.IntN(8)
-	nMut := 1 + r.IntN(3)
-	procs := []int{2, 4, 16}[r.IntN(3)]
-	old := runtime.GOMAXPROCS(procs)
-	defer runtime.GOMAXPROCS(old)
-	yields := 1 + r.IntN(4)
-	y := func() {
-		for i := 0; i < yields; i++ {
-			runtime.Gosched()
-		}
-	}
-	am.VerifHookClear()
-	am.VerifHookSet("tx.applied", y)
-	am.VerifHookSet("tx.before-end", y)
-	defer am.VerifHookClear()
-
-	names := m.StateNames()
-	t0 := m.Time(nil)
-	var stop atomic.Bool
-	var wg, wgR sync.WaitGroup
-	// mutators
-	hists := make([][]gen.Op, nMut)
-	for i := range hists {
-		hists[i] = gen.RandHistory(r, spec.Names, []string{"add", "remove", "set", "toggle", "add", "remove"}, 20+r.IntN(30))
-	}
-	snaps := make([][]snap, nReaders)
-	viewSel := make([]int, nReaders)
-	for i := range viewSel {
-		viewSel[i] = r.IntN(4)
-	}
-	var incons atomic.Value
-	for i := 0; i < nReaders; i++ {
-		wgR.Add(1)
-		go func(i int) {
-			defer wgR.Done()
-			k := viewSel[i]
-			for n := 0; !stop.Load() && n < 20000; n++ {
-				infl := m.Transition() != nil
-				var s snap
-				switch (k + n) % 4 {
-				case 0:
-					s = snap{"Time", m.Time(nil), infl}
-				case 1:
-					cl := m.Clock(nil)
-					t := make(am.Time, len(names))
-					for j, nm := range names {
-						t[j] = cl[nm]
-					}
-					s = snap{"Clock", t, infl}
-				case 2:
-					str := m.StringAll()
-					vs := []seq.View{}
-					if str != "" {
-						// internal consistency of one StringAll reading
-						act, tk := parseSA(names, str)
-						vs = append(vs, seq.View{Name: "StringAll", Active: act, Ticks: tk})
-						if d := seq.ViewsDisagree(names, vs); d != "" {
-							incons.Store("StringAll reading inconsistent: " + d + " in " + str)
-						}
-						s = snap{"StringAll", tk, infl}
-					}
-				case 3:
-					ser, _, err := m.Export()
-					if err == nil && ser != nil {
-						s = snap{"Export", ser.Time, infl}
-					}
-				}
-				if s.t != nil {
-					snaps[i] = append(snaps[i], s)
-				}
-				if n%3 == 0 {
-					runtime.Gosched()
-				}
-			}
-		}(i)
-	}
-	for i := 0; i < nMut; i++ {
-		wg.Add(1)
-		go func(h []gen.Op) {
-			defer wg.Done()
-			for _, op := range h {
-				rec.Apply(m, op)
-			}
-		}(hists[i])
-	}
-	wg.Wait()
-	<-m.WhenQueueEnds()
-	stop.Store(true)
-	wgR.Wait()
-
-	// chain
-	txs := mc.Tr.Snapshot()
-	chain := map[string]int{fmt.Sprint(t0): 0}
-	for i, tx := range txs {
-		chain[fmt.Sprint(tx.After)] = i + 1
-	}
-	ctx := map[string]any{"schema": spec.String(), "readers": nReaders, "mutators": nMut, "gomaxprocs": procs}
-	if v := incons.Load(); v != nil {
-		res.Violate("C01/reader/stringall-inconsistent", v.(string), ctx)
-	}
-	for i := range snaps {
-		var prev am.Time
-		for _, s := range snaps[i] {
-			res.Evals++
-			if _, ok := chain[fmt.Sprint(s.t)]; !ok {
-				res.Violate("C01/reader/torn-vector", fmt.Sprintf(
-					"reader saw %s = %v which is neither the initial time nor the time-after of any transition",
-					s.view, s.t), ctx)
-			}
-			if prev != nil {
-				for j := range s.t {
-					if j < len(prev) && s.t[j] < prev[j] {
-						res.Violate("C01/reader/decreased", fmt.Sprintf(
-							"one reader saw the tick of %s go from %d to %d", names[j], prev[j], s.t[j]), ctx)
-					}
-				}
-			}
-			prev = s.t
-			if s.inflight {
-				res.Key(c.Seed, i, s.view, fmt.Sprint(s.t))
-				res.Count("snapshots_during_transition", 1)
-			}
-		}
-	}
-	hits := am.VerifHookHits()
-	res.Count("hook_tx.applied", int64(hits["tx.applied"]))
-	res.Count("transitions", int64(len(txs)))
-	if c.ID == "readers/00000" {
-		res.Sample = map[string]any{"ctx": ctx, "transitions": len(txs), "snapshots": len(snaps[0])}
-	}
-}
-
-func parseSA(names am.S, s string) ([]string, []uint64) {
-	for _, v := range seq.ParseStringAll(names, s) {
-		return v.Active, v.Ticks
-	}
-	return nil, nil
-}
+func runReaders(res *core.CaseResult, c core.CaseDesc) { seq.ReaderStress(res, c, "C01") }
 
 func main() { core.Main(eng{}) }
